@@ -2064,6 +2064,100 @@ pub fn response_member_forms() -> Value {
 }
 
 // ------------------------------------------------------------------------------------------
+/// C04 / C06: subscription ids that are awkward as JSON (digit strings, text needing escapes, text that looks like an escape):
+/// every notification carries EXACTLY the id the accepting response returned; unsubscribe answers true exactly for that id (same
+/// JSON value, same type) and false for a look-alike. Real WS server, raw frames, custom id provider.
+pub fn subscription_string_ids() -> Value {
+	use jsonrpsee_client_transport::ws::WsTransportClientBuilder;
+	use jsonrpsee_core::client::{ReceivedMessage, TransportReceiverT, TransportSenderT};
+	use jsonrpsee_core::server::SubscriptionMessage;
+	use jsonrpsee_types::SubscriptionId;
+	use std::sync::atomic::{AtomicUsize, Ordering};
+	#[derive(Debug)]
+	struct Cycle(AtomicUsize, Vec<SubscriptionId<'static>>);
+	impl jsonrpsee_core::traits::IdProvider for Cycle { fn next_id(&self) -> SubscriptionId<'static> { let k = self.0.fetch_add(1, Ordering::SeqCst); self.1[k % self.1.len()].clone() } }
+	let ids: Vec<SubscriptionId<'static>> = vec![
+		SubscriptionId::Str("1".into()), SubscriptionId::Num(1), SubscriptionId::Str("007".into()), SubscriptionId::Str("topic\\u0041".into()), SubscriptionId::Str("a\"b".into()),
+		SubscriptionId::Str("\u{e9}\n\t".into()), SubscriptionId::Str("18446744073709551616".into()), SubscriptionId::Str("back\\slash".into()), SubscriptionId::Num(u64::MAX),
+	];
+	let n_ids = ids.len();
+	rt().block_on(async move {
+		let fail = |input: String, obs: String, exp: String| json!({"probe":"subscription_string_ids","disagrees":true,"input":input,"observed":obs,"expected":exp});
+		let cfg = jsonrpsee_server::ServerConfig::builder().set_id_provider(Cycle(AtomicUsize::new(0), ids.clone())).build();
+		let server = match jsonrpsee_server::Server::builder().set_config(cfg).build("127.0.0.1:0").await { Ok(s) => s, Err(e) => return json!({"probe":"subscription_string_ids","error":e.to_string()}) };
+		let addr = server.local_addr().unwrap();
+		let mut module = RpcModule::new(());
+		module
+			.register_subscription("sub", "notif", "unsub", |_, pending, _, _| async move {
+				let sink = match pending.accept().await { Ok(s) => s, Err(_) => return };
+				let raw = |s: &str| SubscriptionMessage::from(serde_json::value::RawValue::from_string(s.to_string()).unwrap());
+				let _ = sink.send(raw("1")).await;
+				let _ = sink.send(raw("2")).await;
+				sink.closed().await;
+			})
+			.unwrap();
+		let _handle = server.start(module);
+		let url = url::Url::parse(&format!("ws://{}", addr)).unwrap();
+		let (mut tx, mut rx) = match WsTransportClientBuilder::default().build(url).await { Ok(x) => x, Err(e) => return json!({"probe":"subscription_string_ids","error":e.to_string()}) };
+		async fn next_frame<R: TransportReceiverT>(rx: &mut R, ms: u64) -> Option<Value> {
+			match tokio::time::timeout(std::time::Duration::from_millis(ms), rx.receive()).await {
+				Ok(Ok(ReceivedMessage::Text(t))) => serde_json::from_str(&t).ok(),
+				Ok(Ok(ReceivedMessage::Bytes(b))) => serde_json::from_slice(&b).ok(),
+				_ => None,
+			}
+		}
+		let mut call_id = 0u64;
+		for k in 0..n_ids {
+			let want_id: Value = match &ids[k] { SubscriptionId::Num(n) => json!(n), SubscriptionId::Str(s) => json!(s.as_ref()) };
+			call_id += 1;
+			let _ = tx.send(json!({"jsonrpc":"2.0","id":call_id,"method":"sub"}).to_string()).await;
+			let mut accepted: Option<Value> = None;
+			let mut notif_ids: Vec<Value> = Vec::new();
+			for _ in 0..3 {
+				match next_frame(&mut rx, 1500).await {
+					Some(f) if f["id"] == json!(call_id) => accepted = Some(f["result"].clone()),
+					Some(f) if f["method"] == json!("notif") => notif_ids.push(f["params"]["subscription"].clone()),
+					_ => {}
+				}
+			}
+			let desc = format!("subscription whose id is {want_id} (id provider), accepted, the handler sends two notifications");
+			if accepted.as_ref() != Some(&want_id) {
+				return fail(desc, format!("accepting response carries {:?}", accepted), format!("{want_id}"));
+			}
+			if notif_ids != vec![want_id.clone(), want_id.clone()] {
+				return fail(desc, format!("notifications carry the ids {}", Value::Array(notif_ids)), format!("two notifications carrying exactly {want_id}"));
+			}
+			// a look-alike of the other JSON type names NO subscription: false, and the subscription stays
+			let lookalike: Option<Value> = match &ids[k] { SubscriptionId::Num(n) => Some(json!(n.to_string())), SubscriptionId::Str(s) => s.parse::<u64>().ok().filter(|n| n.to_string() == s.as_ref() || true).map(|n| json!(n)) };
+			let mut ask = |idv: Value, cid: u64| json!({"jsonrpc":"2.0","id":cid,"method":"unsub","params":[idv]}).to_string();
+			if let Some(l) = lookalike {
+				if l != want_id {
+					call_id += 1;
+					let _ = tx.send(ask(l.clone(), call_id)).await;
+					let r = next_frame(&mut rx, 1500).await.unwrap_or(Value::Null);
+					if r["result"] != json!(false) {
+						return fail(format!("active subscription {want_id}; unsubscribe naming the look-alike {l}"), r.to_string(), "false (no such subscription)".into());
+					}
+				}
+			}
+			call_id += 1;
+			let _ = tx.send(ask(want_id.clone(), call_id)).await;
+			let r = next_frame(&mut rx, 1500).await.unwrap_or(Value::Null);
+			if r["result"] != json!(true) {
+				return fail(format!("active subscription {want_id}; unsubscribe naming exactly that id"), r.to_string(), "true".into());
+			}
+			call_id += 1;
+			let _ = tx.send(ask(want_id.clone(), call_id)).await;
+			let r = next_frame(&mut rx, 1500).await.unwrap_or(Value::Null);
+			if r["result"] != json!(false) {
+				return fail(format!("subscription {want_id} already unsubscribed; unsubscribe again"), r.to_string(), "false".into());
+			}
+		}
+		json!({"probe":"subscription_string_ids","disagrees":false,"histories_tried":n_ids,"bound":"9 subscription ids (digit strings, numbers, text needing JSON escapes, text that looks like an escape) on one connection: accept, two notifications, look-alike unsubscribe, unsubscribe, repeat"})
+	})
+}
+
+// ------------------------------------------------------------------------------------------
 /// C04: once a subscription is closed by a successful unsubscribe its sink stays closed — even if a LATER subscription on the
 /// same connection is given the same id by the id provider. Real WS server, raw frames.
 pub fn subscription_id_reuse() -> Value {
